@@ -71,6 +71,29 @@ Theorem C20_forbid_means_existing : forall debug g cfg L,
 Proof. exact (forbid_means_existing gen_facts). Qed.
 Print Assumptions C20_forbid_means_existing.
 
+(* ---- userPOS not mentioned in a provider's settings ---- *)
+
+(* the regenerated Default of UserPosMode (manual impl or derive + #[default]) is Forbid, and all three providers declare the
+   key as `#[serde(default)] userPOS: UserPosMode` *)
+Fact C20_unmentioned_user_pos_default_is_forbid : Guards.user_pos_default_allow = false.
+Proof. vm_compute. reflexivity. Qed.
+
+Fact C20_user_pos_key_is_optional : Guards.user_pos_key_optional = true.
+Proof. vm_compute. reflexivity. Qed.
+
+(* user-defined POS are allowed only EXPLICITLY: a mode that is not mentioned is handled exactly like a written "forbid"
+   (holds by computation on the regenerated default) *)
+Fact C20_unmentioned_user_pos_is_forbid : eff_mode = explicit_mode.
+Proof. vm_compute. reflexivity. Qed.
+
+(* hence: if no provider writes "allow" (each says "forbid" or nothing), an accepted configuration names only POS of the
+   dictionary and registers none *)
+Theorem C20_not_explicitly_allowed_means_existing : forall debug g (cfg_of : (option bool -> bool) -> config) L,
+  load debug g (cfg_of eff_mode) = Ok L -> forallb forbids (c_oov (cfg_of explicit_mode)) = true ->
+  l_pos L = pos g /\ forall o k, In o (c_oov (cfg_of explicit_mode)) -> In k (pos_keys o) -> In k (pos g).
+Proof. rewrite C20_unmentioned_user_pos_is_forbid. exact (fun debug g cfg_of => forbid_means_existing gen_facts debug g (cfg_of explicit_mode)). Qed.
+Print Assumptions C20_not_explicitly_allowed_means_existing.
+
 (* ======================================================================================================================
    Text layer: the plugin's own readers of the category definitions (char.def) and of unk.def.
    The records the theorems above take (`Mecab lines allow`) are here PRODUCED from the two texts. *)
